@@ -58,6 +58,7 @@ def install(eng):
                            z3.Not(TreeList.is_tnil(Tree.dkids(z)))))
 
     eng.truthy_hooks["Tree"] = tree_truthy
+    eng.empty_hooks["Tree"] = lambda e: V(vc.Tree, Tree.lst(TreeList.tnil))      # an empty collection of paths
 
     @eng.fn("nleaves")
     def _nleaves(e, st, t):
@@ -76,7 +77,7 @@ def install(eng):
 
     eng.cls("Target", pyname="gwf.core:Target",
             consts={"name": vc.Name, "spec": vc.SpecText, "inputs": vc.Tree, "outputs": vc.Tree,
-                    "protect": vc.Tree, "working_dir": T.Atom("Dir"), "order": T.INT},
+                    "protect": vc.Tree, "working_dir": vc.Path, "order": T.INT},
             fields={})
     t = vc.Target.fresh("t")
     outputs_of = eng.const_fn("Target", "outputs", vc.Tree)
